@@ -46,7 +46,7 @@ class SGD(Optimizer):
         """
         super().__init__(parameters, lr)
         self.momentum = momentum
-        self.momentum_buffer = []
+        self.momentum_buffer = {}
         self.nesterov = nesterov
         self.dampening = dampening
         self.maximize = maximize
@@ -59,6 +59,8 @@ class SGD(Optimizer):
         super().step()
         with synapgrad.no_grad():
             for i, p in enumerate(self.parameters):
+                # frozen parameters and parameters without gradient are not updated
+                if not p.requires_grad or p._grad is None: continue
                 grad = -p._grad if self.maximize else p._grad
                 
                 # Weight decay
@@ -67,10 +69,10 @@ class SGD(Optimizer):
                 
                 # Momentum
                 if self.momentum != 0:
-                    if self.t > 1:
+                    if i in self.momentum_buffer:
                         self.momentum_buffer[i] = self.momentum*self.momentum_buffer[i] + (1.0 - self.dampening)*grad
                     else:
-                        self.momentum_buffer.append(np.array(grad))
+                        self.momentum_buffer[i] = np.array(grad)
                 
                     # Nesterov
                     if self.nesterov:
@@ -116,6 +118,8 @@ class Adam(Optimizer):
         super().step()
         with synapgrad.no_grad():
             for i, p in enumerate(self.parameters):
+                # frozen parameters and parameters without gradient are not updated
+                if not p.requires_grad or p._grad is None: continue
                 grad = -p._grad if self.maximize else p._grad   
                     
                 # Weight decay
@@ -169,6 +173,8 @@ class AdamW(Optimizer):
         super().step()
         with synapgrad.no_grad():
             for i, p in enumerate(self.parameters):
+                # frozen parameters and parameters without gradient are not updated
+                if not p.requires_grad or p._grad is None: continue
                 grad = -p._grad if self.maximize else p._grad   
                 
                 # Weight decay
